@@ -9,7 +9,7 @@ Usage: seedcheck.py <seeded-dir> [--no-tests]   (results are merged into <seeded
 import json, os, re, shutil, subprocess, sys, tempfile
 
 ENV = dict(os.environ, GOFLAGS="-mod=mod", GOPROXY="off", GOSUMDB="off", GOTOOLCHAIN="local", GOWORK="off")
-PROPS = "C01 C02 C03 C04 C05 C08 C09 C10 C12 C13 C14 C15 C16 C17 C18 C19 C20".split()
+PROPS = "C01 C02 C03 C04 C05 C06 C07 C08 C09 C10 C12 C13 C14 C15 C16 C17 C18 C19 C20".split()
 
 def sh(cmd, cwd, timeout=600):
     p = subprocess.run(cmd, cwd=cwd, env=ENV, shell=True, capture_output=True, text=True, timeout=timeout)
